@@ -5,7 +5,7 @@ set of order constraints of the property statement evaluated on the ghost dispat
 
 Program = (hA, hB, hC, externals, mid)
   three event types A, B, C; A-handlers may fire B, B-handlers may fire C (nesting <= 2)
-  hX        = tuple of (handler priority, body); 1 or 2 handlers, distinct priorities
+  hX        = tuple of (handler priority, body); 1 or 2 handlers, distinct priorities (also sys.maxsize - 1 and sys.maxsize)
   body      = 'nop' | 'stop' | ('fire', priority) | 'stopgen' (stop, return a generator)
               | ('refire', 'stopfirst'|'firefirst'|'nostop', priority): queue the SAME event object again, once (re-fire family)
   externals = 1..3 fires (type, priority) issued from outside before the first flush()
@@ -34,6 +34,7 @@ ASSUMPTIONS = [
 
 EPRIO = (-1, 0, 0.5, 2)
 HORIZON = 12
+BIG = 2 ** 63 - 1      # sys.maxsize
 
 
 def handler_sets(bodies, pairs):
@@ -66,6 +67,8 @@ def grammar(tier):
         ext1 = [('A', p) for p in EPRIO] + [('B', p) for p in (-1, 0, 2)] + [('C', 0)]
         mids = [None, ('A', -1), ('A', 2), ('B', 0), ('C', 2)]
         ext3 = [('A', -1), ('A', 0), ('A', 0.5), ('A', 2), ('B', 0), ('B', -1)]
+    # "run me first": adjacent priorities next to sys.maxsize - different numbers, though equal once rounded to a float
+    h_a = h_a + [((BIG - 1, b1), (BIG, b2)) for b1 in ('nop', 'stop') for b2 in ('nop', 'stop')]
     exts = []
     for n in (1, 2):
         exts.extend(itertools.product(ext1, repeat=n))
